@@ -1657,6 +1657,10 @@ class AggregateFunction(Function):
 
     @builder
     def filter(self, *filters: Any) -> AnalyticFunction:  # type:ignore[return]
+        # an empty criterion is neutral here as it is in where(): it adds no condition and asks for no FILTER clause
+        filters = tuple(f for f in filters if not isinstance(f, EmptyCriterion))
+        if not filters:
+            return  # type:ignore[return-value]
         self._include_filter = True
         self._filters = self._filters + list(filters)
 
